@@ -16,7 +16,7 @@ Record fobs := mkO {
 Record fcase := mkFC {
   fc_hist : list (N * phase * option nat * bool); (* key, phase, fault, through the proxy driver? *)
   fc_obs : list fobs;
-  fc_race : option (phase * phase * list bool);  (* on key 0, after the history *)
+  fc_race : option (phase * phase * option fidx * option fidx * list bool);  (* on key 0, after the history *)
   fc_robs : list fobs
 }.
 
@@ -63,9 +63,9 @@ Definition check_case (c : fcase) : list N :=
   e ++
   match fc_race c, fc_robs c with
   | None, [] => []
-  | Some (p1, p2, sched), [o1; o2] =>
-      let r := race (c_row (get w 0)) p1 p2 sched in
-      let w1 := apply_hop w (HRace 0 p1 p2 sched) in
+  | Some (p1, p2, f1, f2, sched), [o1; o2] =>
+      let r := race (c_row (get w 0)) p1 p2 f1 f2 sched in
+      let w1 := apply_hop w (HRace 0 p1 p2 f1 f2 sched) in
       cmp_thread 10 (r_t0 r) (get w1 0) o1 ++ cmp_thread 10 (r_t1 r) (get w1 0) o2 ++
       (if done (r_t0 r) && done (r_t1 r) then [] else [17])
   | _, _ => [16]
